@@ -28,9 +28,9 @@ Eff(s, p) == IF p # -1 THEN p ELSE IF s = "https" THEN 443 ELSE 80
 \* the Host header / authority that existed before the edit must denote (h, p) afterwards
 Points(m, ev, h, p) ==
   IF m.sn.hh # "absent" /\ ~(ev.sn.hh = "ok" /\ ev.sn.hhh = h /\ Eff(ev.sn.s, ev.sn.hhp) = p)
-     THEN <<"C33.host_header_stale", IF ev.k = "sethost" THEN ev.hc ELSE m.hc, m.ver>>
+     THEN <<"C33.host_header_stale", IF ev.k \in {"sethost", "seturl"} THEN ev.hc ELSE m.hc, m.ver>>
   ELSE IF m.sn.au # "empty" /\ ~(ev.sn.au = "ok" /\ ev.sn.auh = h /\ Eff(ev.sn.s, ev.sn.aup) = p)
-     THEN <<"C33.authority_stale", IF ev.k = "sethost" THEN ev.hc ELSE m.hc, m.ver>>
+     THEN <<"C33.authority_stale", IF ev.k \in {"sethost", "seturl"} THEN ev.hc ELSE m.hc, m.ver>>
   ELSE <<>>
 
 Clause(m, ev) ==
@@ -45,7 +45,7 @@ Clause(m, ev) ==
          ELSE IF ev.sn.h # ev.sn.uh THEN <<"C33.attributes_inconsistent", ev.hc, "host">>
          ELSE IF ev.sn.p # ev.sn.up THEN <<"C33.attributes_inconsistent", ev.hc, "port">>
          ELSE IF ev.sn.path # ev.sn.upath THEN <<"C33.attributes_inconsistent", ev.hc, "path">>
-         ELSE <<>>
+         ELSE Points(m, ev, ev.u.h, ev.u.p)      \* a URL edit is a host / port (/ scheme) change as well
     [] ev.k = "reassign" ->
          IF ~m.fresh THEN <<>>
          ELSE IF ev.exc # "" THEN <<"C33.reassign_raised", m.hc, ev.exc>>
@@ -68,7 +68,12 @@ MonStep(m, ev) ==
   CASE ev.k = "new" -> [m1 EXCEPT !.sn = ev.sn, !.ver = ev.ver, !.hc = "dns", !.fresh = FALSE]
     [] ev.k = "seturl" ->
          [m1 EXCEPT !.sn = ev.sn, !.hc = IF ok THEN ev.hc ELSE @, !.fresh = ok,
-                    !.wit = @ \cup W(ok, "seturl_" \o ev.hc) \cup W(ok /\ m.sn.hh # "absent", "seturl_with_host_header")]
+                    !.wit = @ \cup W(ok, "seturl_" \o ev.hc) \cup W(ok /\ m.sn.hh # "absent", "seturl_with_host_header")
+                              \* only the scheme changes, and the port is written for one scheme and elided for the other
+                              \cup W(ok /\ m.fresh /\ ev.u.h = m.sn.h /\ ev.u.p = m.sn.p /\ ev.u.s # m.sn.s /\ ev.u.p \in {80, 443}
+                                     /\ (m.sn.hh # "absent" \/ m.sn.au # "empty"), "scheme_only_url_edit_elision_flips")
+                              \cup W(ok /\ m.fresh /\ ev.u.h = m.sn.h /\ ev.u.p = m.sn.p /\ ev.u.s # m.sn.s /\ ev.u.p \notin {80, 443}
+                                     /\ (m.sn.hh # "absent" \/ m.sn.au # "empty"), "scheme_only_url_edit_explicit_port")]
     [] ev.k = "reassign" ->
          [m1 EXCEPT !.sn = ev.sn, !.fresh = m.fresh /\ ok, !.wit = @ \cup W(m.fresh /\ ok, "reassign_" \o m.hc)]
     [] ev.k = "sethost" ->
